@@ -2,7 +2,10 @@ package main
 
 import (
 	"errors"
+	"fmt"
 	"io"
+	"os"
+	"syscall"
 	"time"
 
 	v1 "github.com/keep94/sqroot"
@@ -17,6 +20,7 @@ import (
 // mode 0: error with partial write; 1: error, nothing written by the faulting call; 2: short write without error
 // (then errors); 3: error with partial write, then full recovery.
 type faultWriter struct {
+	errv    error
 	left    int
 	mode    int
 	faulted bool
@@ -26,6 +30,10 @@ type faultWriter struct {
 
 var errFault = errors.New("injected fault")
 
+// the error values a failing writer may hand back: which one it is does not matter to the printer
+var errKinds = []error{errFault, syscall.EPIPE, io.ErrClosedPipe, io.ErrShortWrite, io.EOF, os.ErrClosed, io.ErrUnexpectedEOF,
+	fmt.Errorf("write: %w", syscall.EPIPE), &os.PathError{Op: "write", Path: "|1", Err: syscall.EPIPE}, fmt.Errorf("wrapped: %w", io.ErrClosedPipe), syscall.ENOSPC}
+
 func (w *faultWriter) Write(p []byte) (int, error) {
 	w.calls++
 	if w.faulted {
@@ -33,7 +41,7 @@ func (w *faultWriter) Write(p []byte) (int, error) {
 			w.acc = append(w.acc, p...)
 			return len(p), nil
 		}
-		return 0, errFault
+		return 0, w.err()
 	}
 	if len(p) <= w.left {
 		w.left -= len(p)
@@ -46,11 +54,11 @@ func (w *faultWriter) Write(p []byte) (int, error) {
 		w.acc = append(w.acc, p[:r]...)
 		w.left = 0
 		w.faulted = true
-		return r, errFault
+		return r, w.err()
 	case 1:
 		w.left = 0
 		w.faulted = true
-		return 0, errFault
+		return 0, w.err()
 	default:
 		if r > 0 {
 			w.acc = append(w.acc, p[:r]...)
@@ -58,21 +66,40 @@ func (w *faultWriter) Write(p []byte) (int, error) {
 			return r, nil
 		}
 		w.faulted = true
-		return 0, errFault
+		return 0, w.err()
 	}
 }
 
-func fprintTo(w io.Writer, ver string, p printArgs, v View, size int) (int, error) {
+func (w *faultWriter) err() error {
+	if w.errv != nil {
+		return w.errv
+	}
+	return errFault
+}
+
+func fprintTo(w io.Writer, ver string, p printArgs, v View, size int) (n int, err error) {
+	intact := func() bool { return true }
+	defer func() {
+		if !intact() {
+			n = -12345 // the library wrote to the caller's option slice
+		}
+	}()
 	switch ver {
 	case "v1":
-		return v1.Fprint(w, v.s1, pos1of(p.rng), opts1(p, v1.VerifBufferSize(size))...)
+		o, ok := guardOpts(opts1(p, v1.VerifBufferSize(size)))
+		intact = ok
+		return v1.Fprint(w, v.s1, pos1of(p.rng), o...)
 	case "v2":
-		return v2.Fprint(w, v.s2, pos2of(p.rng), opts2(p, v2.VerifBufferSize(size))...)
+		o, ok := guardOpts(opts2(p, v2.VerifBufferSize(size)))
+		intact = ok
+		return v2.Fprint(w, v.s2, pos2of(p.rng), o...)
 	}
+	o, ok := guardOpts(opts3(p, v3.VerifBufferSize(size)))
+	intact = ok
 	if p.fn == 1 {
-		return v3.Fwrite(w, v.fin3(), opts3(p, v3.VerifBufferSize(size))...)
+		return v3.Fwrite(w, v.fin3(), o...)
 	}
-	return v3.Fprint(w, v.s3, pos3of(p.rng), opts3(p, v3.VerifBufferSize(size))...)
+	return v3.Fprint(w, v.s3, pos3of(p.rng), o...)
 }
 
 func runFprint(c *Case) []string {
@@ -86,7 +113,7 @@ func runFprint(c *Case) []string {
 	if c.Ver == "v3" && p.fn == 1 && v.fin3() == nil {
 		return []string{"NOTFINITE"}
 	}
-	w := &faultWriter{left: k, mode: mode}
+	w := &faultWriter{left: k, mode: mode, errv: errKinds[(k+size+mode)%len(errKinds)]}
 	n, err := fprintTo(w, c.Ver, p, v, size)
 	var t toks
 	t.i(n)
@@ -176,8 +203,40 @@ func genC12Far(tier string, r *Rng, emit func(Case)) {
 	}
 }
 
+// genC12Long: one long contiguous range at the default buffer size: after an early fault the digits consumed are
+// bounded by what the default buffer holds, not by the length of the request.
+func genC12Long(tier string, r *Rng, emit func(Case)) {
+	n := 2
+	if tier == "thorough" {
+		n = 12
+	}
+	for i := 0; i < 3*n; i++ {
+		ver := allVers[i%3]
+		var t toks
+		t.s("G")
+		t.ints(nil)
+		t.ints(randDigits(r, r.Range(1, 6)))
+		t.i(1)
+		t.i(-1)
+		t.i(-1)
+		t.i(1)
+		t.i(0)
+		t.i(r.Pick([]int{6000, 7000, 8000}))
+		t.i(r.Pick([]int{0, 10, 50}))
+		t.i(r.Pick([]int{0, 5}))
+		t.bool(r.Bool())
+		t.i('.')
+		t.bool(true)
+		t.bool(false)
+		t.i(0)
+		args := append(append(toks{}, t...), "0", itoa(r.Intn(4)), itoa(r.Pick([]int{0, 10, 700})))
+		emit(Case{Ver: ver, Op: "Fprint", Args: args})
+	}
+}
+
 func init() {
 	register("C12", func(tier string, r *Rng, emit func(Case)) {
+		genC12Long(tier, r, emit)
 		genC12Far(tier, r, emit)
 		genC12(tier, r, emit)
 	}, map[string]runner{"Fprint": runFprint})
